@@ -264,4 +264,50 @@ Proof.
   - rewrite Hq in A. discriminate A.
   - exfalso. apply Hne. rewrite A. exact (K1 Hc).
 Qed.
+
+(* ---- a recorded error is never overwritten ---- *)
+Lemma recorded_error_sticky : forall l s s' o, reach c s -> step c l s = Some (s', o) ->
+  s_err s <> 0%Z -> s_err s' = s_err s.
+Proof.
+  intros l s s' o Hr H Hne.
+  destruct (reach_next c s Hr) as (N1 & _ & _). destruct (reach_kinv s Hr) as (_ & _ & _ & K4 & _).
+  assert (started s = true) as Hst.
+  { destruct (started s) eqn:E; [reflexivity|]. exfalso. apply Hne. apply K4. reflexivity. }
+  destruct l as [d|i d|d| |a]; [| | | |destruct a]; step_cases H; cbn;
+    try reflexivity;
+    try (unfold ensure_started; rewrite Hst; reflexivity);
+    try (exfalso; match goal with Hcp : c_pc s = CNext |- _ => destruct (N1 Hcp) as [_ Hz]; apply Hne; exact Hz end).
+  all: exfalso; destruct (N1 eq_refl) as [_ Hz]; apply Hne; exact Hz.
+Qed.
+
+(* ---- "every element": if no block of the file reports io.EOF from its decoder, a nil Err
+   means that the objects of ALL blocks of the file were delivered ---- *)
+Definition all_objs (inp : input) : list obj := concat (map objs_of inp).
+Definition no_eof_item (inp : input) : bool :=
+  forallb (fun it => match it with IBad e | IRdErr e => negb (Z.eqb e eEOF) | IBlock _ => true end) inp.
+
+Lemma eof_means_all_blocks : forall inp, no_eof_item inp = true -> final_err inp = eEOF -> expected inp = all_objs inp.
+Proof.
+  induction inp as [|x inp IH]; intros Hne Hf; [reflexivity|].
+  cbn in Hne. apply andb_true_iff in Hne. destruct Hne as [Hx Hne].
+  destruct x as [os|e|e]; cbn in Hf |- *.
+  - unfold all_objs in *. cbn. f_equal. apply IH; assumption.
+  - rewrite Hf in Hx. discriminate Hx.
+  - rewrite Hf in Hx. discriminate Hx.
+Qed.
+
+(* a Scan that returns false without Close / cancellation of the caller's context has recorded an error *)
+Lemma false_scan_records : forall l s s' o v, step c l s = Some (s', o) -> In (OScan false v) o ->
+  closed s' = false -> pcancelled s' = false -> s_err s' <> 0%Z.
+Proof.
+  intros l s s' o v H Hin Hcl Hpc.
+  destruct l as [d|i d|d| |a]; [| | | |destruct a]; step_cases H; cbn in *;
+    try (destruct Hin as [Hin|[]]; try discriminate Hin); try contradiction.
+  all: try (match goal with He : is_err ?e = true |- ?e <> _ => unfold is_err in He; apply negb_true_iff, Z.eqb_neq in He; exact He end).
+  all: try discriminate.
+  all: try (unfold next_closed_err; destruct (is_err (cd_err s)) eqn:Ee;
+            [unfold is_err in Ee; apply negb_true_iff, Z.eqb_neq in Ee; exact Ee|destruct (c_nextctx c && cancelled s)%bool; discriminate]).
+  all: try (match goal with Hb : (_ || _ || _)%bool = true |- _ =>
+      rewrite Hcl, Hpc, !orb_false_r in Hb; unfold is_err in Hb; apply negb_true_iff, Z.eqb_neq in Hb; exact Hb end).
+Qed.
 End Err.
